@@ -2833,6 +2833,10 @@ func (col *DatabaseCollectionWithUser) documentUpdateFunc(
 	// Prune old revision history to limit the number of revisions:
 	if pruned := doc.pruneRevisions(ctx, col.revsLimit(), doc.GetRevTreeID()); pruned > 0 {
 		base.DebugfCtx(ctx, base.KeyCRUD, "updateDoc(%q): Pruned %d old revisions", base.UD(doc.ID), pruned)
+		// Pruning can remove whole tombstoned branches, so the branched/conflict flags follow the remaining leaves
+		_, branched, inConflict := doc.History.winningRevision(ctx)
+		doc.setFlag(channels.Branched, branched)
+		doc.setFlag(channels.Conflict, inConflict)
 	}
 
 	updatedExpiry = doc.updateExpiry(syncExpiry, updatedExpiry, expiry)
